@@ -122,6 +122,25 @@ def one_program(ctx, script, rng, settings_list):
         _build_and_compare(ctx, script, reordered, n_eq, rng, settings_list[:1], dict(case, symbol_order='verbatim-first-rest-reversed'))
 
 
+    # the same symbols after a trip through JSON (named tuples become lists, the IntEnum type its integer): an equal list, hence the
+    # same definition
+    import json as _json
+    from fsic.parser import Symbol as _Symbol
+    try:
+        revived = [_Symbol(*row) for row in _json.loads(_json.dumps(symbols))]
+    except Exception:
+        revived = None
+    if revived is not None and revived == list(symbols):
+        ctx.count('json_revived_symbol_lists')
+        for typed in (True, False):
+            try:
+                ta, tb = fsic.build_model_definition(symbols, with_type_hints=typed), fsic.build_model_definition(revived, with_type_hints=typed)
+            except Exception as e:
+                ctx.violation('build-raises', f'building from symbols revived from JSON (equal to the parsed list) raised {type(e).__name__}: {str(e)[:200]}', dict(case, symbol_order='revived from JSON'))
+                return
+            if ta != tb:
+                ctx.violation('variant-attributes', f'symbols revived from JSON compare equal to the parsed ones, yet the definition built from them differs (typed={typed})', dict(case, symbol_order='revived from JSON'))
+                return
     # one equation switched off by hand (`equation` blanked, `code` left behind): a symbol without an equation contributes its
     # variable but no code - the converter is not called for it and nothing of it reaches _evaluate()
     carriers = [i for i, s in enumerate(symbols) if s.equation is not None and s.code is not None and s.type.name in ('ENDOGENOUS', 'VERBATIM')]
